@@ -333,6 +333,8 @@ def _gen_setop_entries(rng, ix, a, op):
                 if free and rng.random() < 0.4:
                     take = [free.pop() for _ in range(min(len(free), rng.randrange(1, 3)))]
                     ent[(int(v),) + c] = np.array(sorted(take), dtype=np.uint32)
+                elif rng.random() < 0.15:       # a category that received no rows in this batch
+                    ent[(int(v),) + c] = np.array([], dtype=np.uint32)
     else:
         for k in keys:
             if rng.random() < 0.6:
